@@ -387,8 +387,67 @@ def formula_dispatch(ctx):
                                  f'{mn} does not interpolate ({xs}, {ys}) at '
                                  f'the requested wavelength',
                                  construct=f'{mn} interp'))
+    # np.interp is only the linear interpolation of the table when the sample
+    # points ascend: the parsed table is sorted by wavelength (16 catalogue
+    # files list rows out of order) - or the data are proven sorted, which
+    # they are not
+    from ..match import find
+    sorted_ = find(pf, '$a = $a[np.argsort($a[:, 0], kind=$k)]') or \
+        find(pf, '$a = $a[np.argsort($a[:, 0])]') or \
+        find(pf, '$a = $a[$a[:, 0].argsort()]')
+    if sorted_:
+        res.ok('tabulated rows sorted by wavelength before they are split '
+               'into columns')
+    else:
+        unsorted = _unsorted_tables(ctx)
+        if unsorted:
+            res.fail(ctx.finding(
+                'FORMULA-DISPATCH', pf, pf.node,
+                f'tabulated data are handed to np.interp in file order, but '
+                f'{len(unsorted)} catalogue files list rows with descending '
+                f'wavelengths (e.g. {unsorted[0]}): between such rows the '
+                f'value returned is not the linear interpolation of the table',
+                construct='tabulated data sorted for np.interp'))
+        else:
+            res.ok('every tabulated file of the catalogue is ascending')
     res.require(14)
     return res
+
+
+def _unsorted_tables(ctx):
+    """data files whose tabulated block has a descending wavelength step"""
+    import os
+    root = os.path.join(ctx.P.root, 'database', 'data-nk')
+    out = []
+    for dp, dn, fns in os.walk(root):
+        for fn in sorted(fns):
+            if not fn.endswith('.yml'):
+                continue
+            p_ = os.path.join(dp, fn)
+            try:
+                txt = open(p_, encoding='utf-8', errors='replace').read()
+            except OSError:
+                continue
+            if 'tabulated' not in txt:
+                continue
+            block = False
+            prev = None
+            for line in txt.splitlines():
+                st = line.strip()
+                if st.startswith('- type:'):
+                    block = 'tabulated' in st
+                    prev = None
+                    continue
+                if block and st and st[0].isdigit():
+                    try:
+                        w = float(st.split()[0])
+                    except ValueError:
+                        continue
+                    if prev is not None and w < prev:
+                        out.append(os.path.relpath(p_, root))
+                        block = False
+                    prev = w
+    return out
 
 
 def arity(ctx):
